@@ -244,6 +244,15 @@ Theorem C17_round_integer_partial : forall (md : rmode) (s : bool) (m : positive
   end.
 Proof. exact round_int_spec. Qed.
 
+(* known class round:non-finite-result: with a precision whose power of ten is infinite (what
+   powi returns for 400) the finite number 2.5 is "rounded" to NaN instead of 2.5 or an error *)
+Theorem C17_round_finite_stays_finite_refuted :
+  exists (pow10 : Z -> spec_float) kw v,
+    pow10 400 = S754_infinity false /\
+    v = VFloat (S754_finite false 5629499534213120 (-51)) /\
+    f_round pow10 kw v = BOk (VFloat S754_nan).
+Proof. exact round_non_finite_witness. Qed.
+
 (* ---------------------------------------------------------------- default *)
 
 Theorem C17_default_spec : forall kw v d,
